@@ -498,3 +498,32 @@ def observable(case, impl, model, dbg):
         return True
     ndig = len(bs) - (1 if bs and (bs[0] == 43 or (signed and bs[0] == 45)) else 0)
     return not (r ** ndig > (1 << (w * n)))
+
+
+IMPL_ONLY = {"U.huge_from_str_radix", "I.huge_from_str_radix"}
+
+
+def sequential_cases(tier):
+    """thorough tier only, implementation only, one process at a time (each input is 1-4 GiB): strings whose LENGTH does
+    not fit a u32.  Expected results follow from the property text alone: leading zeros never change the result; a run of
+    non-zero digits far longer than the type's capacity is PosOverflow.  Skipped when less than 12 GiB of memory is free."""
+    if tier != "thorough":
+        return []
+    try:
+        avail = [int(l.split()[1]) for l in open("/proc/meminfo") if l.startswith("MemAvailable")][0] // (1 << 20)
+    except Exception:
+        avail = 0
+    if avail < 12:
+        return []
+    t = "L:" + ",".join("%x" % c for c in b"123451234")
+    out = []
+    # 2^32 + 3 leading zeros, radix 10 / 6 / 36 (general branch) and 16 (power-of-two branch, zeros are stripped)
+    out.append(("U.huge_from_str_radix 64 3 Z:20 Z:30 %s Z:a" % t, "L:75bb762,0,0", "2^32+3 leading zeros + 123451234, radix 10"))
+    out.append(("U.huge_from_str_radix 32 2 Z:20 Z:30 %s Z:a" % t, "L:75bb762,0", "2^32+3 leading zeros + 123451234, radix 10, u32 digits"))
+    out.append(("U.huge_from_str_radix 8 5 Z:20 Z:30 %s Z:6" % t, "L:c6,e2,24,0,0", "2^32+3 leading zeros, radix 6, u8 digits"))
+    out.append(("U.huge_from_str_radix 64 2 Z:20 Z:30 %s Z:10" % t, "L:123451234,0", "2^32+3 leading zeros, radix 16"))
+    # over-long runs of non-zero digits in the power-of-two radices: PosOverflow, never a panic
+    out.append(("U.huge_from_str_radix 64 2 Z:1e Z:31 L:31 Z:10", "Err:2", "2^30+4 hex digits"))
+    out.append(("I.huge_from_str_radix 16 3 Z:1f Z:31 L:31 Z:4", "Err:2", "2^31+4 base-4 digits"))
+    out.append(("U.huge_from_str_radix 8 1 Z:20 Z:31 L:31 Z:2", "Err:2", "2^32+4 binary digits"))
+    return out
